@@ -129,8 +129,8 @@ impl Property for C12 {
 
     fn runs(&self, tier: Tier) -> u64 {
         match tier {
-            Tier::Quick => 3000,
-            Tier::Thorough => 80000,
+            Tier::Quick => 15000,
+            Tier::Thorough => 1500000,
         }
     }
 
